@@ -131,7 +131,7 @@ func VerifC16Malformed() {
 func VerifC16Batch() {
 	c := vClient(false)
 	n := nd.Int("count", 0, 27)
-	last := nd.Choice("last-request", 4) // 0 put, 1 delete, 2 both, 3 neither
+	last := nd.Choice("last-request", 6) // 0 put, 1 delete, 2 both, 3 neither, 4 put + delete with an empty key, 5 put with an empty item + delete
 	reqs := []types.WriteRequest{}
 	for i := 0; i < n; i++ {
 		k := "k" + string(rune('a'+i))
@@ -144,6 +144,10 @@ func VerifC16Batch() {
 				r.DeleteRequest = &types.DeleteRequest{Key: vItem{"p": vS(k)}}
 			case 3:
 				r = types.WriteRequest{}
+			case 4:
+				r.DeleteRequest = &types.DeleteRequest{Key: vItem{}}
+			case 5:
+				r = types.WriteRequest{PutRequest: &types.PutRequest{Item: vItem{}}, DeleteRequest: &types.DeleteRequest{Key: vItem{"p": vS(k)}}}
 			}
 		}
 		reqs = append(reqs, r)
@@ -197,6 +201,9 @@ func VerifC16KeyCondition() {
 		nd.Assert(AddIndex(vCtx, c, vTbl, vIdx, "g", "") == nil, "setup-addindex")
 		P, S, F, index = "g", "", "p", vIdx
 	}
+	if index == "" {
+		nd.Assert(AddIndex(vCtx, c, vTbl, "oth", "f", "") == nil, "setup-addindex-oth")
+	}
 	nd.Assert(vPut(c, vItem{"p": vS("k"), "s": vS("r"), "f": vS("x"), "g": vS("k"), "h": vS("r")}) == nil, "setup-put")
 	// shapes over P, S, F; a shape that mentions S is used only when the target has a sort key
 	valid := []string{"P = :p", "(P = :p)", "P = :p AND S = :s", "P = :p AND S < :s", "P = :p AND S <= :s", "P = :p AND S > :s", "P = :p AND S >= :s",
@@ -228,13 +235,15 @@ func VerifC16KeyCondition() {
 	}
 	alias := nd.Choice("alias", 2) == 1
 	names := map[string]string{}
+	// with aliases the text is the same whatever the attributes are called: #kp, #ks, #kf
 	sub := func(e, letter, attr string) string {
 		if !strings.Contains(e, letter) {
 			return e
 		}
 		if alias {
-			names["#"+attr] = attr
-			attr = "#" + attr
+			al := "#k" + strings.ToLower(letter)
+			names[al] = attr
+			attr = al
 		}
 		return strings.ReplaceAll(e, letter, attr)
 	}
@@ -251,6 +260,28 @@ func VerifC16KeyCondition() {
 	}
 	if len(names) > 0 {
 		in.ExpressionAttributeNames = names
+	}
+	if nd.Param("prime", 1) == 1 {
+		// whether a key condition is accepted does not depend on earlier queries: before the query that is
+		// checked, the same text is sent (1) with every #name bound to the partition key of the target and
+		// (2) through the other access path of the table (the index "oth" on f / the table itself), where the
+		// same text may well be a proper key condition; outcomes ignored
+		if len(names) > 0 {
+			pn := map[string]string{}
+			for k := range names {
+				pn[k] = P
+			}
+			pin := *in
+			pin.ExpressionAttributeNames = pn
+			vCatch(func() error { _, e2 := c.Query(vCtx, &pin); return e2 })
+		}
+		pin := *in
+		if index == "" {
+			pin.IndexName = aws.String("oth")
+		} else {
+			pin.IndexName = nil
+		}
+		vCatch(func() error { _, e2 := c.Query(vCtx, &pin); return e2 })
 	}
 	err, panicked := vCatch(func() error {
 		_, e2 := c.Query(vCtx, in)
